@@ -2,6 +2,13 @@
 
 #include <stdint.h>
 
+#ifdef FRG_VERIF_HOOKS
+#include <frg/verif_hooks.hpp>
+#endif
+#ifndef FRG_VERIF_POINT
+#define FRG_VERIF_POINT(site, obj, v) do { } while(0)
+#endif
+
 namespace frg {
 
 namespace detail {
@@ -35,10 +42,14 @@ struct ticket_spinlock {
 	ticket_spinlock &operator= (const ticket_spinlock &) = delete;
 
 	void lock() {
+		FRG_VERIF_POINT("ticket.lock.fetch_add", this, 0);
 		auto ticket = __atomic_fetch_add(&next_ticket_, 1, __ATOMIC_RELAXED);
+		FRG_VERIF_POINT("ticket.lock.took_ticket", this, ticket);
 		while(__atomic_load_n(&serving_ticket_, __ATOMIC_ACQUIRE) != ticket) {
+			FRG_VERIF_POINT("spin:ticket.lock.wait", this, ticket);
 			detail::loophint();
 		}
+		FRG_VERIF_POINT("ticket.lock.acquired", this, ticket);
 	}
 
 	bool is_locked() {
@@ -47,7 +58,9 @@ struct ticket_spinlock {
 	}
 
 	void unlock() {
+		FRG_VERIF_POINT("ticket.unlock.load", this, 0);
 		auto current = __atomic_load_n(&serving_ticket_, __ATOMIC_RELAXED);
+		FRG_VERIF_POINT("ticket.unlock.store", this, current);
 		__atomic_store_n(&serving_ticket_, current + 1, __ATOMIC_RELEASE);
 	}
 
@@ -65,11 +78,14 @@ struct simple_spinlock {
 
 	void lock() {
 		while (true) {
+			FRG_VERIF_POINT("simple.lock.exchange", this, 0);
 			if (!__atomic_exchange_n(&lock_, true, __ATOMIC_ACQUIRE)) {
+				FRG_VERIF_POINT("simple.lock.acquired", this, 0);
 				return;
 			}
 
 			while (__atomic_load_n(&lock_, __ATOMIC_RELAXED)) {
+				FRG_VERIF_POINT("spin:simple.lock.wait", this, 0);
 				detail::loophint();
 			}
 		}
@@ -80,6 +96,7 @@ struct simple_spinlock {
 	}
 
 	void unlock() {
+		FRG_VERIF_POINT("simple.unlock.store", this, 0);
 		__atomic_store_n(&lock_, false, __ATOMIC_RELEASE);
 	}
 
